@@ -3,7 +3,7 @@ schedules and outcomes. Every random choice comes from the `random.Random` passe
 from harness.common import impl, fl
 
 
-def rand_specs(R, finite=False, samename=False, maxdepth=3, top=(1, 3), prefix="h"):
+def rand_specs(R, finite=False, samename=False, maxdepth=3, top=(1, 3), prefix="h", nonfixed=False):
     """A parent-first list of hyperparameter specs (dicts). `conds` is the chain of enclosing
     conditions [(parent_name, [values])...]."""
     specs = []
@@ -53,6 +53,10 @@ def rand_specs(R, finite=False, samename=False, maxdepth=3, top=(1, 3), prefix="
 
     for _ in range(R.randint(*top)):
         decl(0, [])
+    if nonfixed and all(s["kind"] == "fixed" for s in specs):
+        # the Bayesian oracle cannot fit a Gaussian process on a zero-dimensional space (sklearn raises);
+        # recorded in DESIGN.md as an observation outside the listed properties
+        specs.append({"name": f"{prefix}{cnt[0]}", "kind": "bool", "conds": [], "default": False})
     return specs
 
 
